@@ -48,13 +48,19 @@ impl PatternNode {
   }
 
   pub fn fixed_string(&self) -> Cow<str> {
+    self.longest_terminal(false)
+  }
+
+  /// The longest token text of the pattern. `named_only` leaves out anonymous tokens.
+  fn longest_terminal(&self, named_only: bool) -> Cow<str> {
     match &self {
+      PatternNode::Terminal { is_named, .. } if named_only && !*is_named => Cow::Borrowed(""),
       PatternNode::Terminal { text, .. } => Cow::Borrowed(text),
       PatternNode::MetaVar { .. } => Cow::Borrowed(""),
       PatternNode::Internal { children, .. } => {
         children
           .iter()
-          .map(|n| n.fixed_string())
+          .map(|n| n.longest_terminal(named_only))
           .fold(Cow::Borrowed(""), |longest, curr| {
             if longest.len() >= curr.len() {
               longest
@@ -158,10 +164,12 @@ impl<L: Language> Pattern<L> {
 
   pub fn fixed_string(&self) -> Cow<str> {
     // under `signature` strictness token text is not compared: no literal has to occur in a matching file
-    if matches!(self.strictness, MatchStrictness::Signature) {
-      return Cow::Borrowed("");
+    match self.strictness {
+      MatchStrictness::Signature => Cow::Borrowed(""),
+      // anonymous tokens of the pattern may be skipped: `let $A = $B` matches `const x = 1`
+      MatchStrictness::Ast | MatchStrictness::Relaxed => self.node.longest_terminal(true),
+      MatchStrictness::Cst | MatchStrictness::Smart => self.node.fixed_string(),
     }
-    self.node.fixed_string()
   }
 
   /// Get all defined variables in the pattern.
